@@ -164,7 +164,10 @@ Definition optima_qtt (co cs : nat) (Y : list (core T)) (k : nat)
       let '(i_min, _, i_max, _) := optima_tt co cs Zq k in
       rbind (ind_qtt_to_tt1 q i_min) (fun j_min =>
       rbind (ind_qtt_to_tt1 q i_max) (fun j_max =>
-      Ok (j_min, get K Y j_min, j_max, get K Y j_max)))
+      (* y_min, y_max re-evaluated on Y;  if y_min > y_max: swap the pair  (commit 285e9fd) *)
+      let y_min := get K Y j_min in
+      let y_max := get K Y j_max in
+      if oltb K y_max y_min then Ok (j_max, y_max, j_min, y_min) else Ok (j_min, y_min, j_max, y_max)))
   end.
 End Optima.
 
